@@ -6,17 +6,61 @@ _U = HDR + ["src/ETag.cc", "src/store.cc", "src/client_side_reply.cc", "src/MemO
             "src/HttpBody.cc", "src/HttpHdrCc.cc", "src/http/RequestMethod.cc", "src/http/MethodType.cc", "src/http/StatusLine.cc", "src/http/StatusCode.cc",
             "src/anyp/UriScheme.cc", "src/anyp/ProtocolType.cc", "src/LogTags.cc", "src/cbdata.cc"]
 _e = lambda n, b, r, **kw: dict(name=n, bounds=b, reach=list(r), **dict(dict(max_samples=4, sample_every=53), **kw))
+_b = "; b = fully symbolic byte (any value but NUL, CR, LF)"
+_m = "; method GET or HEAD"
+_mo = "; method GET, HEAD, POST, PUT or DELETE"
+def _fam(th):
+    f = lambda q, t: t if th else q
+    return [
+        _e("c14_etag", "etagParseInit/etagIsStrongEqual/etagIsWeakEqual on every pair of strings of 0..%d fully symbolic non-NUL bytes" % f(4, 6), ("equal", "different", "rejected")),
+        _e("c14_inm", "cached 200 reply with ETag '\"' b b '\"' | 'W/\"' b '\"' | none | " + f("'\"a\"'", "b '\"a\"'") + ", Last-Modified earlier than the If-Modified-Since date; If-None-Match = '\"' b " +
+           f("'b\"'", "b '\"'") + " | 'W/\"' b '\"' | '\"x\",' b '\"a\"'" + f("", " b") + " | '*' | b '\"a\"' b | " + f("'\"a\", *'", "'\"a\"' b '*'") + " | empty; If-Modified-Since present or not" +
+           _b + _m + " (without If-Modified-Since also POST, PUT, DELETE)", ("304-inm", "412-inm", "200-inm")),
+        _e("c14_ifmatch", "cached 200 reply with ETag '\"' b 'b\"' | 'W/\"a\"' | none | " + f("'\"ab\"'", "'W/\"' b 'b\"'") + "; If-Match = '\"' b b '\"' | 'W/\"a\"' | '\"x\", \"' b 'b\"' | '*' | b '\"ab\"' | empty; "
+           "If-None-Match absent | '\"ab\"' | '\"zz\"'" + _b + _mo, ("412-if-match", "200-plain", "304-inm", "200-inm", "412-inm")),
+        _e("c14_ims", "cached reply with status 200 or any other status 100..599, with or without ETag, Last-Modified any time 0..2^31-1 or unknown, entry timestamp any time 0..2^31-1; "
+           "If-Modified-Since any time 1..2^31-1" + _m, ("304-ims", "200-ims", "non-200")),
+        _e("c14_order", "cached 200 reply with ETag '\"' b '\"' | " + f("'W/\"a\"'", "'W/\"' b '\"'") + ", Last-Modified any time; If-Match absent | '\"' b '\"' | '*'; If-None-Match absent | '\"' b '\"' | 'W/\"a\"'; "
+           "If-Modified-Since absent or any time" + _b + _m, ("412-if-match", "304-inm", "200-inm", "304-ims", "200-ims", "200-plain")),
+        _e("c14_merge", "cached 200 reply {Date, Content-Type, ETag \"a\", Content-Length 5, X-A old, X-C keep, Vary x-v}; origin 304 with a newer Date and one of: X-A: b b" + f("", " b") +
+           " | x-a: b | X-B: b | ETag: '\"' b '\"' | X-A: old and the old Date (nothing new) | two lines X-A: b, X-A: 2 | Vary: x-w + X-A: b | Content-Length: 5" + _b, ("updated", "nothing-new")),
+    ]
 SPEC = dict(
     harness="C14_cond.cc", units=_U, unit_flags={"compat/xstring.cc": ["-Dxstrdup=vf_unused_squid_xstrdup"]},
-    scope="kernel", scope_note="kernel decided: ...; gap: ...",
-    entries=dict(
-        quick=[_e("c14_etag", "...", ("equal", "different", "rejected")),
-               _e("c14_inm", "...", ("304-inm", "412-inm", "200-inm")),
-               _e("c14_ifmatch", "...", ("412-if-match", "200-plain", "304-inm", "200-inm", "412-inm")),
-               _e("c14_ims", "...", ("304-ims", "200-ims", "non-200")),
-               _e("c14_order", "...", ("412-if-match", "304-inm", "200-inm", "304-ims", "200-ims", "200-plain")),
-               _e("c14_merge", "...", ("updated", "nothing-new"))],
-        thorough=[]),
+    scope="kernel",
+    scope_note="kernel decided: (K1) src/ETag.cc parses every well-formed entity-tag and compares strongly/weakly as RFC 9110 8.8.3.2 says. (K2) clientReplyContext::processConditional() "
+               "(src/client_side_reply.cc) with the real StoreEntry::hasIfMatchEtag()/hasIfNoneMatchEtag()/hasOneOfEtags()/modifiedSince() (src/store.cc), HttpHeader::getList()/getETag(), "
+               "strListGetItem() and the real sendNotModified()/sendPreconditionFailedError()/sendNotModifiedOrPreconditionFailedError()/processMiss() up to their first store-client call: "
+               "on a cached 200 reply it starts a 304 only for GET/HEAD with an If-None-Match member that weakly matches the cached ETag (or '*'), or -- If-None-Match absent -- an "
+               "If-Modified-Since date not earlier than the entry's Last-Modified; it starts a 412 exactly when If-Match has no strongly matching member (or an If-None-Match member matches "
+               "on another method); otherwise it lets the full cached response go out; If-Match is evaluated before If-None-Match, and If-Modified-Since is switched off when If-None-Match "
+               "is present (RFC 9110 13.2.2); a hit on a non-200 reply is forwarded to the origin. (K3) StoreEntry::updateOnNotModified() -> HttpReply::recreateOnNotModified() -> "
+               "HttpHeader::needUpdate()/update(): after an origin 304, MemObject::freshestReply() -- what later hits send -- carries every field of the 304 with the 304's value (once; "
+               "several lines joined), keeps every stored field the 304 does not mention, keeps Vary, status and Content-Length, while the stored reply object that locates the body is untouched. "
+               "gap: clientReplyContext::cacheHit() reaching processConditional() only for fresh hits, and handleIMSReply()/processExpired() (which reply goes to the client after the origin's "
+               "304/200, Store::Controller::updateOnNotModified() persisting the update to shared memory/disk); clientInterpretRequestHeaders() turning the If-Modified-Since text into "
+               "flags.ims/ims (date parsing: C35); the 304/412 replies themselves (HttpReply::make304(), the error page) and the byte stream of the full response; range requests (flags.isRanged "
+               "switches If-None-Match to strong comparison: not exercised)",
+    entries=dict(quick=_fam(False), thorough=_fam(True)),
     timeout=dict(quick=900, thorough=3000),
-    stubs=[], outside="",
+    stubs=["clientReplyContext, ClientHttpRequest, AccessLogEntry, HttpRequest, StoreEntry, MemObject are zeroed raw memory of the real size (not constructed); set directly: "
+           "clientReplyContext::http, ClientHttpRequest::al/request/entry_/uri, AccessLogEntry::cache.code, HttpRequest::method/header/flags.ims/ims/imslen/vary_headers, "
+           "StoreEntry::mem_obj/timestamp/lastModified_/expires, MemObject::storeId_/method/vary_headers/reply_ (RefCount and const members written as raw pointers); HttpReply objects are "
+           "really constructed and filled with HttpHeader::addEntry() as HttpHeader::parse() stores fields",
+           "flags.ims/ims are set as clientInterpretRequestHeaders() sets them (flags.ims only for a date > 0; imslen -1)",
+           "storeUnregister() (store_client.cc not linked) records the logging tag set by the running sender (LOG_TCP_INM_HIT/LOG_TCP_IMS_HIT = 304, LOG_TCP_HIT + error page status 412 = 412, "
+           "LOG_TCP_MISS = forwarded) and ends the path by throwing; ErrorState's constructor (errorpage.cc not linked) records the status of the requested error page; "
+           "MemPools::create() returns a plain-heap allocator (cbdata.cc allocation of the ErrorState)",
+           "Time::ParseRfc1123() (src/time/rfc1123.cc not linked) knows the two Date texts of c14_merge and nothing else",
+           "StatHist::enumInit/count no-ops; SquidConfig Config is the real global, zero-initialised, reply_header_max_size 64 KB; squid_curtime set by the harness",
+           "libc models (strcmp/strncmp/strlen/strspn/strcspn, C locale)", "debugs() disabled"],
+    assumptions=["validators 'match' as RFC 9110 13.1.1-13.1.3 define it; list members are read by a reference reader that splits at commas outside double quotes and trims SP/HTAB; it answers "
+                 "yes/no only for lists whose members are all '*' or well-formed entity-tags without backslash (RFC 9110 has no escapes inside entity-tags, Squid's list splitter has) and for "
+                 "a well-formed cached ETag; for other inputs only the 'only when' directions are asserted (no 304/412 without a possible match/failure)",
+                 "only GET and HEAD requests are looked up in the cache (HttpRequestMethod::respMaybeCacheable()), so If-Modified-Since is exercised with these two methods only",
+                 "KNOWN-FINDING candidate excluded by vf_assume: a cached reply without Last-Modified answering If-Modified-Since >= StoreEntry::timestamp with 304 "
+                 "(StoreEntry::lastModified() falls back to the timestamp; RFC 9110 13.1.3: the field MUST be ignored when no modification date is available)",
+                 "KNOWN-FINDING candidate excluded by vf_assume: an origin 304 carrying a Content-Length different from the stored one replaces the stored Content-Length "
+                 "(HttpHeader::update() exempts only Vary; RFC 9111 3.2 also exempts Content-Length), so later hits declare a length that is not the stored body's"],
+    outside="entity-tags, lists and field sets other than the listed families; If-Unmodified-Since and If-Range (not evaluated by processConditional()); ranged requests; everything listed under gap",
 )
